@@ -75,7 +75,10 @@ def err(e):
             getattr(getattr(e, 'token', None), 'type', None))
 
 
-def do_call(p, op, text, j, cfg):
+_KEEP = []      # abandoned iterators stay referenced until the history ends (a generator that is merely dropped gets closed at once)
+
+
+def do_call(p, op, text, j, cfg, keep=False):
     """perform one API call completely (or abandon it after j items) and return a comparable outcome"""
     try:
         if op == 'parse':
@@ -86,12 +89,14 @@ def do_call(p, op, text, j, cfg):
             return ('ok', [norm(t) for t in p.lex(text, dont_ignore=True)])
         if op == 'lex-partial':
             it = p.lex(text); out = []
+            if keep: _KEEP.append(it)
             for _ in range(j):
                 try: out.append(norm(next(it)))
                 except StopIteration: break
-            return ('ok', out)           # generator dropped here
+            return ('ok', out)           # generator abandoned here
         if op == 'scan-partial':
             it = p.scan(text); out = []
+            if keep: _KEEP.append(it)
             for _ in range(j):
                 try:
                     m = next(it); out.append((tuple(m.range), norm(m.value)))
@@ -100,6 +105,7 @@ def do_call(p, op, text, j, cfg):
         if op == 'interactive-partial':
             ip = p.parse_interactive(text); out = []
             it = ip.iter_parse()
+            if keep: _KEEP.append((ip, it))
             for _ in range(j):
                 try: out.append(norm(next(it)))
                 except StopIteration: break
@@ -133,6 +139,8 @@ def check_history(case, ctx):
     shared, texts = CONFIGS[cfg]()
     ops = ops_for(cfg)
     dirty = False
+    del _KEEP[:]
+    keep = bool(case.get('keep', True))
     for k, (oi, ti, j, other) in enumerate(case['calls']):
         op = ops[oi % len(ops)]; text = texts[ti % len(texts)]
         if other:
@@ -140,7 +148,7 @@ def check_history(case, ctx):
             o2, t2 = CONFIGS[sorted(CONFIGS)[other % len(CONFIGS)]]()
             try: o2.parse(t2[ti % len(t2)])
             except (UnexpectedInput, DedentError): pass
-        got = do_call(shared, op, text, j, cfg)
+        got = do_call(shared, op, text, j, cfg, keep=keep)
         fresh, _ = CONFIGS[cfg]()
         want = do_call(fresh, op, text, j, cfg)
         if got != want:
@@ -154,7 +162,7 @@ def check_history(case, ctx):
 
 @st.composite
 def histories(draw):
-    return {'config': draw(st.sampled_from(sorted(CONFIGS))),
+    return {'config': draw(st.sampled_from(sorted(CONFIGS))), 'keep': draw(st.booleans()),
             'calls': draw(st.lists(st.tuples(st.integers(0, 9), st.integers(0, 12), st.integers(0, 5), st.sampled_from([0, 0, 0, 1, 2, 5, 7])), min_size=2, max_size=10).map(lambda l: [list(x) for x in l]))}
 
 
